@@ -10,7 +10,7 @@ one() {
   extra=""
   case $id in
     C01-3) extra="--props C01,C03";; C02-6) extra="--props C02,C13";; C01-7) extra="--props C01,C10,C12";;
-    C15-10) extra="--props C15,C10";; C04-9|C04-10) extra="--props C04";;
+    C15-10) extra="--props C15,C10";; C04-9|C04-10) extra="--props C04";; C04-6) extra="--props C04,C02";;
   esac
   python3 tools/mutant.py detect-scratch $d $extra --budget $B 2>&1 | grep "^{" | cut -c1-200
 }
